@@ -1069,12 +1069,7 @@ func exec(c px.Context, op string, args []sx.Sexp) core.Result {
 	}
 	text, isT := isText(out)
 	if isT && strings.Contains(text, "%!") && !hasPercent(ve) && !sepHasPercent(fc.m) {
-		cls := "go-fmt-leak"
-		if d.width/10 > 1000000 || d.prec/10 > 1000000 {
-			// fmt's parsenum gives up on numbers beyond 10^6 (known finding C20-fmt-number-limit)
-			cls = "go-fmt-number-limit"
-		}
-		return fail(cls, fmt.Sprintf("%s: a Go fmt error marker in the output: %q", d.raw, text))
+		return fail("go-fmt-leak", fmt.Sprintf("%s: a Go fmt error marker in the output: %q", d.raw, text))
 	}
 
 	if isContainerTag(tag) {
